@@ -28,6 +28,17 @@ open Gotree Gotree.C14
     (hypothesis of `clone_eq`; broken by reverting b0dbbc9 = F20) -/
 theorem table_observable_copied : allObservableFieldsCopied Gotree.Gen.C15.fields = true := by decide
 
+/-- table (d), round 6: EVERY field of `Node`, `Edge` and `Tree` found in the source has a reviewed policy
+    (`fieldPolicy`: must be copied / structural, rebuilt with copies / recomputed by the copy), no reviewed
+    field is missing from the source, and every must-copy field — `rootdepth` (8aafdfc), depths, tip counts,
+    hash codes, bitset included — is copied -/
+theorem table_all_fields_reviewed : allFieldsReviewed Gotree.Gen.C15.fields = true := by decide
+
+/-- pinned variant (before 8aafdfc): `CopyNode` without `rootdepth` — the decision fails -/
+theorem table_rootdepth_pinned_fails :
+    allFieldsReviewed (Gotree.Gen.C15.fields.map fun f =>
+      if f.owner == "Node" && f.name == "rootdepth" then { f with treat := .notCopied } else f) = false := by decide
+
 /-- ★ every slice / pointer / map field of a copied node or branch is freshly allocated (or left
     at the fresh value of `NewNode`/`NewEdge` and filled by `ConnectNodes` with copies only):
     no cell of the copy is a cell of the source, so no edit of one can write into the other
